@@ -78,6 +78,23 @@ func TestMkCorpus(t *testing.T) {
 		c2 := b.AddCommit(ip(c), b.AddTree([]WFile{{"README", 2}}), ip(kOutsider))
 		b.Push(main, c2, ip(kOutsider))
 		emitWitness(t, out, "C02", 1, b, full, "F4")
+	case "F7":
+		// threshold-2 rule; an app-signed approval by user3 for ANOTHER change, stored under the path of the change to main
+		b := NewWorldBuilder(t)
+		p := basePolicy()
+		p.Root.Apps = []AppSpec{{Name: "app", Key: kApp, Trusted: true}}
+		p.Files[0].Principals = []PrincipalSpec{
+			{ID: 2, Person: true, Keys: []int{2}, Identities: map[string]string{"app": "user2"}},
+			{ID: 3, Person: true, Keys: []int{3}, Identities: map[string]string{"app": "user3"}}}
+		p.Files[0].Rules[0].Principals = []int{2, 3}
+		p.Files[0].Rules[0].Threshold = 2
+		b.AddPolicy(p, true)
+		tree := b.AddTree([]WFile{{"README", 1}})
+		other := b.AddTree([]WFile{{"OTHER", 9}})
+		b.AddAtt(WAtt{Gh: []WGh{{SRef: main, SFrom: nil, STo: tree, Ref: "refs/heads/other", From: nil, To: other, App: "app", Signers: []int{kApp}, Approvers: []string{"user3"}, Dismissed: []string{}}}})
+		c := b.AddCommit(nil, tree, ip(2))
+		b.Push(main, c, ip(2))
+		emitWitness(t, out, "C09", 1, b, full, "F7")
 	default:
 		t.Skip("set VERIF_WITNESS")
 	}
